@@ -13,12 +13,14 @@ import (
 	"crypto/x509"
 	"encoding/base64"
 	"encoding/hex"
+	"encoding/pem"
 	"errors"
 	"fmt"
 	"io"
 	"net"
 	"os"
 	"os/exec"
+	"path/filepath"
 	"strings"
 	"sync"
 	"time"
@@ -409,7 +411,11 @@ type Tamper struct {
 
 // Tampers derives tampered variants of a received payload: one signed field removed, one signed
 // field altered (a non-white-space octet changed or appended), one field of an over-signed name added.
-func Tampers(r *vh.Rng, payload []byte) []Tamper {
+// oversign is the CONFIGURED list of over-signed names (the signer's input, not its output): the added
+// field is of one of those names whether or not the signature lists it — a name of the list that is
+// absent from the message is the usual case (Reply-To, Cc, Content-Type …).  Without a configured list
+// the names are taken from the h= tag (more slots than occurrences).
+func Tampers(r *vh.Rng, payload []byte, oversign []string) []Tamper {
 	fields, body, ok := Split(payload)
 	if !ok {
 		return nil
@@ -496,9 +502,19 @@ func Tampers(r *vh.Rng, payload []byte) []Tamper {
 	}
 	// add: names with more slots than occurrences are over-signed
 	var over []string
-	for k, n := range slots {
-		if n > present[k] && k != "" {
-			over = append(over, k)
+	if len(oversign) > 0 {
+		seen := map[string]bool{}
+		for _, k := range oversign {
+			if l := strings.ToLower(k); !seen[l] && l != "" {
+				seen[l] = true
+				over = append(over, l)
+			}
+		}
+	} else {
+		for k, n := range slots {
+			if n > present[k] && k != "" {
+				over = append(over, k)
+			}
 		}
 	}
 	if len(over) > 0 {
@@ -561,6 +577,112 @@ func ParseRecord(rec string) (crypto.PublicKey, string, error) {
 		return ed25519.PublicKey(raw), "ed25519", nil
 	}
 	return nil, "", errors.New("unknown key type " + t["k"])
+}
+
+// SamePublic: the same public key?
+func SamePublic(a, b crypto.PublicKey) bool {
+	if a == nil || b == nil {
+		return false
+	}
+	eq, ok := a.(interface{ Equal(crypto.PublicKey) bool })
+	return ok && eq.Equal(b)
+}
+
+// KeyFile is a file found in a key directory, classified by its CONTENT (never by its name).
+type KeyFile struct {
+	Rel     string // path relative to the directory, "/"-separated
+	Content []byte
+	Kind    string           // "k" = PEM private key, "r" = DKIM TXT record, "?" = neither
+	Pub     crypto.PublicKey // public half (k) / published key (r)
+	Algo    string           // rsa | ed25519
+}
+
+// ScanKeyDir reads every regular file below dir.
+func ScanKeyDir(dir string) (map[string]KeyFile, error) {
+	out := map[string]KeyFile{}
+	err := filepath.Walk(dir, func(p string, info os.FileInfo, err error) error {
+		if err != nil || info.IsDir() {
+			return err
+		}
+		b, err := os.ReadFile(p)
+		if err != nil {
+			return err
+		}
+		rel, _ := filepath.Rel(dir, p)
+		f := KeyFile{Rel: filepath.ToSlash(rel), Content: b, Kind: "?"}
+		if blk, _ := pem.Decode(b); blk != nil {
+			var key interface{}
+			switch blk.Type {
+			case "PRIVATE KEY":
+				key, _ = x509.ParsePKCS8PrivateKey(blk.Bytes)
+			case "RSA PRIVATE KEY":
+				key, _ = x509.ParsePKCS1PrivateKey(blk.Bytes)
+			}
+			if sg, ok := key.(crypto.Signer); ok {
+				f.Kind, f.Pub = "k", sg.Public()
+			}
+		} else if strings.HasPrefix(string(b), "v=DKIM1") {
+			if pub, _, err := ParseRecord(string(b)); err == nil {
+				f.Kind, f.Pub = "r", pub
+			}
+		}
+		switch f.Pub.(type) {
+		case *rsa.PublicKey:
+			f.Algo = "rsa"
+		case ed25519.PublicKey:
+			f.Algo = "ed25519"
+		}
+		out[f.Rel] = f
+		return nil
+	})
+	return out, err
+}
+
+// ---- key directories: templates, selectors, domains
+
+// KeyTemplates: key_path values relative to the key directory.  The default, custom ones with both,
+// one or no placeholder (domains sharing a key), sub-directories named after a placeholder, names not
+// ending in ".key" (the record is then <key path>.dns), a placeholder used twice, look-alikes that are
+// not placeholders.
+var KeyTemplates = []string{
+	"{domain}_{selector}.key", "{domain}_{selector}.key", "{domain}_{selector}.key",
+	"{domain}.key", "{selector}/{domain}.key", "{domain}/{selector}.key", "{selector}._domainkey.{domain}.pem",
+	"keys/{domain}.{selector}", "{selector}.key", "shared.key", "{domain}-{domain}.key", "{Domain}/{domain}_{selector}.KEY",
+	"dkim {selector}/{domain}.private.key", "{selector}{domain}", "{{domain}}.key", "{domain}_{selector}.key.pem",
+}
+
+var KeySelectors = []string{"sel", "sel", "default", "S2024", "2024-09", "ключ", "xn--h1ajdq", "dkim_1"}
+
+// KeyDomains: groups of spellings of one domain (an instance is never configured with two of a group).
+var KeyDomains = [][]string{
+	{"example.org", "EXAMPLE.ORG", "Example.Org"},
+	{"mail.example.com", "Mail.Example.COM"},
+	{"пример.example", "xn--e1afmkfd.example", "Пример.Example", "XN--E1AFMKFD.EXAMPLE"},
+	{"bücher.example", "xn--bcher-kva.example", "BÜCHER.example", "bu\u0308cher.example"},
+	{"münchen.example", "xn--mnchen-3ya.example"},
+	{"例え.テスト", "xn--r8jz45g.xn--zckzah"},
+	{"sub.пример.example", "sub.xn--e1afmkfd.example"},
+	{"a-b.example", "A-B.example"},
+}
+
+// ExpandKeyPath is the documented meaning of key_path ("placeholders '{domain}' and '{selector}' will be
+// replaced with corresponding values from domain and selector directives"): the monitor's own expansion.
+func ExpandKeyPath(tmpl, domain, selector string) string {
+	var b strings.Builder
+	for i := 0; i < len(tmpl); {
+		switch {
+		case strings.HasPrefix(tmpl[i:], "{domain}"):
+			b.WriteString(domain)
+			i += len("{domain}")
+		case strings.HasPrefix(tmpl[i:], "{selector}"):
+			b.WriteString(selector)
+			i += len("{selector}")
+		default:
+			b.WriteByte(tmpl[i])
+			i++
+		}
+	}
+	return b.String()
 }
 
 // ---------------------------------------------------------------- the Lean model as verifier
